@@ -77,6 +77,19 @@ func decide(t fataler, s *graph.Scenario, tag string) {
 			t.Fatalf("C02: %v\nscenario: %s\nreg %v ordmode %d seed %x", err, desc, s.RegPerm, s.OrdMode, s.OrdSeed)
 		}
 		labels = append(labels, "started")
+		// now and then the very same component objects (fields still populated) are started in a second, fresh
+		// container: same graph, so it starts again and every required point holds its target
+		if (s.OrdSeed+uint64(len(s.Nodes)))%5 == 0 {
+			in.Extra = []any{&graph.ObsPP{Tag: "c02-second", Log: in.Log}}
+			in.Run()
+			if in.Out.Panic != nil || in.Out.Err != nil {
+				t.Fatalf("C02: the same components started in a second container: %v (the first start succeeded)\nscenario: %s", in.Out, desc)
+			}
+			if err := graph.CheckWiring(in.G, false); err != nil {
+				t.Fatalf("C02: second container over the same components: %v\nscenario: %s", err, desc)
+			}
+			labels = append(labels, "second-container-same-objects")
+		}
 	} else {
 		labels = append(labels, "failed-cleanly")
 	}
